@@ -172,6 +172,18 @@ func c05Check(c C05Case, cx *h.Ctx) *h.Failure {
 	}
 
 	text := g.AsText()
+	// the returned text / bytes are the caller's: later renderings leave them alone
+	{
+		held := string(append([]byte(nil), text...))
+		app0 := g.AppendWKT(nil)
+		for _, other := range []geom.Geometry{dirty(model.T), g, dirty(gm.GeometryCollection)} {
+			_ = other.AsText()
+			other.AppendWKT(nil)
+		}
+		if text != held || string(app0) != held {
+			return h.Failf("wkt/result-overwritten", "the text returned by AsText()/AppendWKT(nil) changed after later calls:\nwas %q\nnow %q / %q", held, text, app0)
+		}
+	}
 	// AppendWKT(prefix) == prefix + AsText(), also through the concrete types
 	prefix, _ := hex.DecodeString(c.Prefix)
 	app := g.AppendWKT(append([]byte(nil), prefix...))
